@@ -184,3 +184,6 @@ example :
 example : (⟨1, 2⟩ : Params).chunkLen = 2 ^ (⟨1, 2⟩ : Params).chunkSh := by decide
 example : Params.production.chunkLen = 2 ^ Params.production.chunkSh := by decide
 
+
+/-- the production macros (generated from `smart_list.h`) satisfy the hypothesis of all theorems above -/
+theorem C15_production_params : Params.production.chunkLen = 2 ^ Params.production.chunkSh := by decide
